@@ -16,7 +16,9 @@ RULE = ("eager layer.assert_constraints(eps) on real float64 layers (Lattice, RT
         "ASSIGNED weights, eps in {1e-6, 1e-4, 1e-2, 0.5}. Weight classes: feasible (constructed, tight or with "
         "margin), the same with one covered inequality instance (kind x location x unit) pushed to a violation of "
         "10..100 eps ('inject') or of 0.05..0.3 eps ('below'), and random kernels. Outcome class (returned / raised "
-        "InvalidArgumentError) is compared with the Coq model's boolean; independently the largest violation over all "
+        "InvalidArgumentError) is compared with the Coq model's boolean (~10% of the randomly generated layers of every "
+        "kind are built in float32 - the layers' DEFAULT dtype -, class suffix _f32, with eps in {1e-4, 1e-2, 0.5}; the "
+        "float32 values the layer really holds are what the model and the numpy predicate receive); independently the largest violation over all "
         "covered inequalities is computed with numpy and  violation > 2 eps => raised,  violation < eps/2 => returned  "
         "is demanded (any other exception is a failure). A fixed family of small configurations has EVERY "
         "(inequality instance, unit) injected once: sampled in the quick tier, exhausted in the thorough tier. "
@@ -35,8 +37,12 @@ LIMITS = ["not asserted by the code, hence not covered (a violation passes silen
           "use no eps (count <= 0): stricter than eps, any violation fails",
           "Linear norm check is strict (|norm - 1| < eps) and passes any column with norm < 1e-8 (documented: an "
           "all-zero column cannot be normalised)",
-          "cases whose decisive difference is within 1e-9 of +-eps are not generated (float rounding decides there)",
+          "cases whose decisive difference is within 1e-9 of +-eps are not generated (float rounding decides there); "
+          "float32 layers are not run with eps = 1e-6 (an injected violation of 0.05 eps .. 100 eps keeps a distance of at "
+          "least 0.7 eps = 7e-5 from the threshold, far above the float32 rounding of the asserted differences)",
           "RTL with parameterization='kronecker_factored' is covered through the KFL layer only, not through RTL",
+          "RTL(dtype='float64') builds float32 lattice layers (the dtype is not passed on): every RTL case asserts float32 "
+          "kernels, whatever dtype the RTL was given (histogram suffix _f64rtl-holds-f32); the model receives those values",
           "Linear normalization_order: only None, 1 and 2 are generated and modelled. The code hands any other order "
           "to tf.norm(ord=...) (3, np.inf, 'euclidean', ...) while Model/Asserts.v norm_ok treats every order other "
           "than 1 as L2; an order of 0 skips the check in the code ('if normalization_order:') but would be checked as "
@@ -45,6 +51,40 @@ LIMITS = ["not asserted by the code, hence not covered (a violation passes silen
           "lists) is not generated: TensorFlow's reduce_min of an empty tensor is +inf (the assert passes for every "
           "eps) whereas the model's qminl [] is 0 (passes only for eps >= 0); generated eps values are positive and "
           "every modelled reduction is taken over at least one instance"]
+
+
+def is_f32(d):
+  return d.get("dtype") == "float32"
+
+
+def dtname(d):
+  return "float32" if is_f32(d) else "float64"
+
+
+def held(d, a):
+  """The values a layer of the desc's dtype really holds after assign (float32: the nearest float32 values, as exact
+  float64 numbers)."""
+  a = np.asarray(a, dtype=np.float64)
+  return a.astype(np.float32).astype(np.float64) if is_f32(d) else a
+
+
+def pick_f32(rng, p=0.18):
+  """(dtype flag, eps) for a randomly generated layer: float32 layers avoid eps = 1e-6."""
+  f32 = rng.random() < p
+  return f32, rng.choice(EPS[1:] if f32 else EPS)
+
+
+def mark(d, f32):
+  if f32:
+    d["dtype"] = "float32"
+  return d
+
+
+def check_dtype(d, *variables):
+  for v in variables:
+    if v.dtype.base_dtype.name != dtname(d):
+      return "error: layer built with dtype=%s holds a %s variable %s" % (dtname(d), v.dtype.base_dtype.name, v.name)
+  return None
 
 
 def prod(xs):
@@ -373,7 +413,8 @@ def gen_lattice(ctx, rng, out):
     cfg = lat_struct(rng)
     W = lat_feasible(rng, cfg)
     set_lat_bounds(rng, cfg, W, rng.choice(["none", "min", "max", "both", "both"]))
-    eps = rng.choice(EPS)
+    f32, eps = pick_f32(rng)
+    n_before = len(out)
     forms = rng.randrange(4)
     g = rng.choice(["feasible", "feasible", "inject", "inject", "inject", "below", "random"])
     ineqs = lat_ineqs(cfg)
@@ -396,6 +437,8 @@ def gen_lattice(ctx, rng, out):
       W2, single = inject_single(W, u, ineqs, qi, delta)
       out.append(lat_desc(cfg, W2, eps, g, dict(kind=ineqs[qi][0], loc=ineqs[qi][1], unit=u, delta=delta,
                                                 single=single), forms))
+    for d in out[n_before:]:
+      mark(d, f32)
 
 
 def coq_lat_cfg(cfg):
@@ -441,7 +484,7 @@ _MONO_STR = {0: "none", 1: "increasing", -1: "decreasing"}
 _DIR_STR = {1: "positive", -1: "negative"}
 
 
-def lattice_layer(tfl, cfg, forms):
+def lattice_layer(tfl, cfg, forms, dtype="float64"):
   """Builds the real layer, hyperparameters in one of the accepted user-facing forms."""
   monos = list(cfg["monos"])
   edge, trap = latgen.tuples(cfg["edge"]), latgen.tuples(cfg["trap"])
@@ -461,7 +504,7 @@ def lattice_layer(tfl, cfg, forms):
       monotonic_dominances=latgen.tuples(cfg["mdom"]), range_dominances=latgen.tuples(cfg["rdom"]),
       joint_monotonicities=latgen.tuples(cfg["jmono"]),
       joint_unimodalities=[(tuple(d), s) for d, s in cfg["juni"]] or None,
-      output_min=cfg["omin"], output_max=cfg["omax"], kernel_initializer="zeros", dtype="float64")
+      output_min=cfg["omin"], output_max=cfg["omax"], kernel_initializer="zeros", dtype=dtype)
   rank = len(cfg["sizes"])
   layer.build((None, rank) if cfg["units"] == 1 else (None, cfg["units"], rank))
   return layer
@@ -469,11 +512,11 @@ def lattice_layer(tfl, cfg, forms):
 
 def eval_lattice(tf, tfl, d):
   cfg = d["cfg"]
-  W = np.array(d["w"], dtype=np.float64)
-  layer = lattice_layer(tfl, cfg, d.get("forms", 0))
-  layer.kernel.assign(W)
+  W = held(d, d["w"])
+  layer = lattice_layer(tfl, cfg, d.get("forms", 0), dtname(d))
+  layer.kernel.assign(W.astype(dtname(d)))
   eps = d["eps"]
-  out = outcome_of(tf, lambda: layer.assert_constraints(eps))
+  out = check_dtype(d, layer.kernel) or outcome_of(tf, lambda: layer.assert_constraints(eps))
   v = lat_viol(W, cfg)
   fail = verdict(out, v, eps)
   coq = None
@@ -483,8 +526,8 @@ def eval_lattice(tf, tfl, d):
                                 ("R", cfg["rdom"]), ("J", cfg["jmono"]),
                                 ("B", cfg["omin"] is not None or cfg["omax"] is not None)) if k)
   inj = d["inj"] or {}
-  klass = "lattice_%s_%s%s_u%d_%s" % (d["gclass"], inj.get("kind", "-"), "" if inj.get("single", True) else "+others",
-                                      min(cfg["units"], 2), out[:8])
+  klass = "lattice_%s_%s%s_u%d_%s%s" % (d["gclass"], inj.get("kind", "-"), "" if inj.get("single", True) else "+others",
+                                        min(cfg["units"], 2), out[:8], "_f32" if is_f32(d) else "")
   return Case(d, coq=coq, pred_fail=fail, nontrivial=bool(v > 0), klass=klass,
               info={"outcome": out, "largest_violation": v, "families": fams})
 
@@ -641,7 +684,7 @@ def gen_pwl(ctx, rng, out):
     lo = omin if omin is not None else -50.0
     hi = omax if omax is not None else 50.0
     mo = [min(max(tfimpl.dy(rng, -3, 3), lo), hi) for _ in range(units)]
-    eps = rng.choice(EPS)
+    f32, eps = pick_f32(rng)
     g = rng.choice(["feasible", "inject", "inject", "inject", "below", "random"])
     if g == "random":
       o = np.array([[tfimpl.dy(rng, -4, 4) for _ in range(units)] for _ in range(nk)])
@@ -651,9 +694,9 @@ def gen_pwl(ctx, rng, out):
     insts = pwl_instances(b)
     if g in ("inject", "below") and insts:
       delta = (rng.choice([10.0, 25.0, 100.0]) if g == "inject" else rng.choice([0.05, 0.3])) * eps
-      out.append(pwl_desc(b, eps, g, rng.choice(insts), delta, rng.randrange(2)))
+      out.append(mark(pwl_desc(b, eps, g, rng.choice(insts), delta, rng.randrange(2)), f32))
     else:
-      out.append(pwl_desc(b, eps, g if g == "random" else "feasible", None, 0.0, rng.randrange(2)))
+      out.append(mark(pwl_desc(b, eps, g if g == "random" else "feasible", None, 0.0, rng.randrange(2)), f32))
   # regression witnesses of the fixed defects B-E (must behave; a revert makes them crash or miss)
   out.append(dict(layer="pwl", kps=[0.0, 1.0, 2.0], units=2, mono=1, omin=None, omax=None, cmin=False, cmax=False,
                   cyclic=False, split=True, impute=False, miv=None, mov=None, mo=[0.0, 0.0], learned=False,
@@ -707,7 +750,7 @@ def eval_pwl(tf, tfl, d):
     return Case(d, coq=coq, pred_fail=verdict(out, v, eps), nontrivial=bool(v > 0),
                 klass="pwllib_%s_%s" % (d["gclass"], out[:8]), info={"outcome": out, "largest_violation": v})
   mono = d["mono"] if not d.get("forms") else _MONO_STR[d["mono"]]
-  dtype = "float64"
+  dtype = dtname(d)
   layer = tfl.layers.PWLCalibration(
       input_keypoints=list(d["kps"]), units=d["units"], output_min=d["omin"], output_max=d["omax"],
       clamp_min=d["cmin"], clamp_max=d["cmax"], monotonicity=mono, is_cyclic=d["cyclic"],
@@ -715,23 +758,25 @@ def eval_pwl(tf, tfl, d):
       split_outputs=d["split"], input_keypoints_type="learned_interior" if d["learned"] else "fixed",
       kernel_initializer="zeros", dtype=dtype)
   layer.build((None, 1))
-  K = np.array(d["kernel"], dtype=np.float64)
-  layer.kernel.assign(K)
+  K = held(d, d["kernel"])
+  layer.kernel.assign(K.astype(dtype))
   if d["learned"] and d.get("logits"):
-    layer.interpolation_logits.assign(np.log(np.array([d["logits"]] * d["units"], dtype=np.float64) / sum(d["logits"])))
+    layer.interpolation_logits.assign(
+        np.log(np.array([d["logits"]] * d["units"], dtype=np.float64) / sum(d["logits"])).astype(dtype))
   learned_missing = d["impute"] and d["mov"] is None
+  mo_held = [float(x) for x in held(d, d["mo"])]
   if learned_missing:
-    layer.missing_output.assign(np.array([d["mo"]], dtype=np.float64))
-  out = outcome_of(tf, lambda: layer.assert_constraints(eps))
-  v = pwl_viol(d)
+    layer.missing_output.assign(np.array([mo_held], dtype=dtype))
+  out = check_dtype(d, layer.kernel) or outcome_of(tf, lambda: layer.assert_constraints(eps))
+  v = pwl_viol(dict(d, kernel=K, mo=mo_held))
   coq = None
   if not out.startswith("error"):
     coq = "CPwl (mkPL %s %s %s) %s %s %s" % (
         coq_pa(d["units"], d["mono"], d["omin"], d["omax"], d["cmin"], d["cmax"]), cbool(d["cyclic"]),
-        copt(d["mo"] if learned_missing else None, cql), cqm(K.tolist()), cq(eps), cbool(out == "returned"))
-  klass = "pwl_%s_%s%s%s%s%s_%s" % (d["gclass"], (d["inj"] or {}).get("kind", "-"), "_cyc" if d["cyclic"] else "",
-                                    "_split" if d["split"] and d["units"] > 1 else "", "_miss" if d["impute"] else "",
-                                    "_learned" if d["learned"] else "", out[:8])
+        copt(mo_held if learned_missing else None, cql), cqm(K.tolist()), cq(eps), cbool(out == "returned"))
+  klass = "pwl_%s_%s%s%s%s%s_%s%s" % (d["gclass"], (d["inj"] or {}).get("kind", "-"), "_cyc" if d["cyclic"] else "",
+                                      "_split" if d["split"] and d["units"] > 1 else "", "_miss" if d["impute"] else "",
+                                      "_learned" if d["learned"] else "", out[:8], "_f32" if is_f32(d) else "")
   return Case(d, coq=coq, pred_fail=verdict(out, v, eps), nontrivial=bool(v > 0), klass=klass,
               info={"outcome": out, "largest_violation": v})
 
@@ -856,7 +901,7 @@ def gen_linear(ctx, rng, out):
       elif rng.random() < 0.2:
         lo[i] = tfimpl.dy(rng, -2, 2)
     norm = rng.choice([None, None, 1, 2])
-    eps = rng.choice(EPS)
+    f32, eps = pick_f32(rng)
     sc = lin_scalings(dict(monos=monos, lo=lo, hi=hi))
     cols = []
     for _ in range(units):
@@ -891,9 +936,9 @@ def gen_linear(ctx, rng, out):
     insts = lin_instances(b)
     if g in ("inject", "below") and insts:
       delta = (rng.choice([10.0, 25.0, 100.0]) if g == "inject" else rng.choice([0.05, 0.3])) * eps
-      out.append(lin_desc(b, eps, g, rng.choice(insts), delta, rng.randrange(2)))
+      out.append(mark(lin_desc(b, eps, g, rng.choice(insts), delta, rng.randrange(2)), f32))
     else:
-      out.append(lin_desc(b, eps, g if g == "random" else "feasible", None, 0.0, rng.randrange(2)))
+      out.append(mark(lin_desc(b, eps, g if g == "random" else "feasible", None, 0.0, rng.randrange(2)), f32))
   # small but not numerically-zero columns (norm between the 1e-8 escape and eps) violate the norm constraint by ~1
   for order in (1, 2):
     for e_, sc_ in ((1e-4, 2.0 ** -15), (1e-2, 2.0 ** -10), (1e-6, 2.0 ** -22)):
@@ -924,12 +969,12 @@ def eval_linear(tf, tfl, d):
       num_input_dims=n, units=units, monotonicities=monos,
       monotonic_dominances=latgen.tuples(d["mdom"]), range_dominances=latgen.tuples(d["rdom"]),
       input_min=lo if any_lo else None, input_max=list(d["hi"]) if any_hi else None,
-      normalization_order=d["norm"], dtype="float64")
+      normalization_order=d["norm"], dtype=dtname(d))
   layer.build((None, n) if units == 1 else (None, units, n))
-  K = np.array(d["K"], dtype=np.float64)
-  layer.kernel.assign(K)
-  out = outcome_of(tf, lambda: layer.assert_constraints(eps))
-  v = lin_viol(d)
+  K = held(d, d["K"])
+  layer.kernel.assign(K.astype(dtname(d)))
+  out = check_dtype(d, layer.kernel) or outcome_of(tf, lambda: layer.assert_constraints(eps))
+  v = lin_viol(dict(d, K=K))
   decisive = []
   if d["norm"]:
     decisive = [abs(x - 1.0) for x in lin_norms(K, d["norm"])]
@@ -939,8 +984,8 @@ def eval_linear(tf, tfl, d):
     coq = "CLin (mkLinA %s %s %s %s %s %s %s) %s %s %s" % (
         cnat(units), czl(d["monos"]), cnatpairs(d["mdom"]), cnatpairs(d["rdom"]), ob(d["lo"]), ob(d["hi"]),
         copt(d["norm"], cnat), cqm(K.tolist()), cq(eps), cbool(out == "returned"))
-  klass = "linear_%s_%s_u%d%s_%s" % (d["gclass"], (d["inj"] or {}).get("kind", "-"), min(units, 2),
-                                     "_L%d" % d["norm"] if d["norm"] else "", out[:8])
+  klass = "linear_%s_%s_u%d%s_%s%s" % (d["gclass"], (d["inj"] or {}).get("kind", "-"), min(units, 2),
+                                       "_L%d" % d["norm"] if d["norm"] else "", out[:8], "_f32" if is_f32(d) else "")
   return Case(d, coq=coq, pred_fail=verdict(out, v, eps), nontrivial=bool(v > 0), klass=klass,
               info={"outcome": out, "largest_violation": v})
 
@@ -1025,7 +1070,7 @@ def gen_categorical(ctx, rng, out):
     omin, omax = tfimpl.zero_bound(rng, omin, omax)
     lo = omin if omin is not None else (omax - 4.0 if omax is not None else -2.0)
     K = np.array([[lo + rank[b_] * rng.choice([0.0, 0.5, 1.0]) for _ in range(units)] for b_ in range(nb)])
-    eps = rng.choice(EPS)
+    f32, eps = pick_f32(rng)
     g = rng.choice(["feasible", "inject", "inject", "inject", "below", "random"])
     if g == "random":
       K = np.array([[tfimpl.dy(rng, -3, 3) for _ in range(units)] for _ in range(nb)])
@@ -1034,9 +1079,9 @@ def gen_categorical(ctx, rng, out):
     insts = cat_instances(b)
     if g in ("inject", "below") and insts:
       delta = (rng.choice([10.0, 25.0, 100.0]) if g == "inject" else rng.choice([0.05, 0.3])) * eps
-      out.append(cat_desc(b, eps, g, rng.choice(insts), delta))
+      out.append(mark(cat_desc(b, eps, g, rng.choice(insts), delta), f32))
     else:
-      out.append(cat_desc(b, eps, g if g == "random" else "feasible"))
+      out.append(mark(cat_desc(b, eps, g if g == "random" else "feasible"), f32))
   # witness of the fixed defect D9: pair (0,1) in order, pair (1,2) violated
   out.append(dict(layer="categorical", nb=3, units=1, pairs=[[0, 1], [1, 2]], omin=None, omax=None,
                   K=[[0.0], [2.0], [1.0]], eps=1e-6, gclass="witnessD9", inj=dict(kind="pair", loc=[1], unit=0, delta=1.0),
@@ -1047,18 +1092,19 @@ def eval_categorical(tf, tfl, d):
   eps = d["eps"]
   layer = tfl.layers.CategoricalCalibration(
       num_buckets=d["nb"], units=d["units"], output_min=d["omin"], output_max=d["omax"],
-      monotonicities=[tuple(p) for p in d["pairs"]] or None, default_input_value=d["default"], dtype="float64")
+      monotonicities=[tuple(p) for p in d["pairs"]] or None, default_input_value=d["default"], dtype=dtname(d))
   layer.build((None, 1))
-  K = np.array(d["K"], dtype=np.float64)
-  layer.kernel.assign(K)
-  out = outcome_of(tf, lambda: layer.assert_constraints(eps))
-  v = cat_viol(d)
+  K = held(d, d["K"])
+  layer.kernel.assign(K.astype(dtname(d)))
+  out = check_dtype(d, layer.kernel) or outcome_of(tf, lambda: layer.assert_constraints(eps))
+  v = cat_viol(dict(d, K=K))
   coq = None
   if not out.startswith("error"):
     coq = "CCat (mkCatA %s %s %s %s) %s %s %s" % (cnat(d["units"]), copt(d["omin"]), copt(d["omax"]),
                                                   cnatpairs(d["pairs"]), cqm(K.tolist()), cq(eps),
                                                   cbool(out == "returned"))
-  klass = "categorical_%s_%s_u%d_%s" % (d["gclass"], (d["inj"] or {}).get("kind", "-"), min(d["units"], 2), out[:8])
+  klass = "categorical_%s_%s_u%d_%s%s" % (d["gclass"], (d["inj"] or {}).get("kind", "-"), min(d["units"], 2), out[:8],
+                                          "_f32" if is_f32(d) else "")
   return Case(d, coq=coq, pred_fail=verdict(out, v, eps), nontrivial=bool(v > 0), klass=klass,
               info={"outcome": out, "largest_violation": v})
 
@@ -1196,7 +1242,7 @@ def gen_kfl(ctx, rng, out):
           if monos and monos[dd]:
             vals.sort(reverse=(S[u, t] < 0))
           K[:, u, dd, t] = vals
-    eps = rng.choice(EPS)
+    f32, eps = pick_f32(rng)
     g = rng.choice(["feasible", "inject", "inject", "inject", "below", "random"])
     if g == "random":
       K = np.array([tfimpl.dy(rng, -1.5, 1.5) for _ in range(K.size)]).reshape(K.shape)
@@ -1206,9 +1252,9 @@ def gen_kfl(ctx, rng, out):
     insts = kfl_instances(b)
     if g in ("inject", "below") and insts:
       delta = (rng.choice([10.0, 25.0, 100.0]) if g == "inject" else rng.choice([0.05, 0.3])) * eps
-      out.append(kfl_desc(b, eps, g, rng.choice(insts), delta, rng.randrange(2)))
+      out.append(mark(kfl_desc(b, eps, g, rng.choice(insts), delta, rng.randrange(2)), f32))
     else:
-      out.append(kfl_desc(b, eps, g if g == "random" else "feasible", None, 0.0, rng.randrange(2)))
+      out.append(mark(kfl_desc(b, eps, g if g == "random" else "feasible", None, 0.0, rng.randrange(2)), f32))
 
 
 def eval_kfl(tf, tfl, d):
@@ -1219,21 +1265,23 @@ def eval_kfl(tf, tfl, d):
     monos = [_MONO_STR[m] for m in monos]
   layer = tfl.layers.KroneckerFactoredLattice(
       lattice_sizes=L, units=units, num_terms=terms, monotonicities=monos, output_min=d["omin"],
-      output_max=d["omax"], dtype="float64")
+      output_max=d["omax"], dtype=dtname(d))
   layer.build(tf.TensorShape((None, dims) if units == 1 else (None, units, dims)))
-  K = np.array(d["kernel"], dtype=np.float64)
-  layer.kernel.assign(K.reshape(1, L, units * dims, terms))
-  layer.scale.assign(np.array(d["scale"], dtype=np.float64))
-  out = outcome_of(tf, lambda: layer.assert_constraints(eps))
-  ve, vs = kfl_viols(d)
+  K = held(d, d["kernel"])
+  S = held(d, d["scale"])
+  layer.kernel.assign(K.reshape(1, L, units * dims, terms).astype(dtname(d)))
+  layer.scale.assign(S.astype(dtname(d)))
+  out = check_dtype(d, layer.kernel, layer.scale) or outcome_of(tf, lambda: layer.assert_constraints(eps))
+  ve, vs = kfl_viols(dict(d, kernel=K, scale=S))
   coq = None
   if not out.startswith("error"):
     coq = "CKfl (mkKA %s %s %s %s %s %s %s) %s %s %s %s" % (
         cnat(L), cnat(units), cnat(dims), cnat(terms), czl(d["monos"] or []), copt(d["omin"]), copt(d["omax"]),
-        cqm(d["scale"]), cql(K.tolist()), cq(eps), cbool(out == "returned"))
+        cqm(S.tolist()), cql(K.tolist()), cq(eps), cbool(out == "returned"))
   bm = ("B" if d["omin"] is not None and d["omax"] is not None else "m" if d["omin"] is not None else
         "x" if d["omax"] is not None else "-")
-  klass = "kfl_%s_%s_%s_u%d_%s" % (d["gclass"], (d["inj"] or {}).get("kind", "-"), bm, min(units, 2), out[:8])
+  klass = "kfl_%s_%s_%s_u%d_%s%s" % (d["gclass"], (d["inj"] or {}).get("kind", "-"), bm, min(units, 2), out[:8],
+                                     "_f32" if is_f32(d) else "")
   return Case(d, coq=coq, pred_fail=verdict(out, ve, eps, vs), nontrivial=bool(max(ve, vs) > 0), klass=klass,
               info={"outcome": out, "largest_violation_eps_kinds": ve, "largest_violation_strict_kinds": vs})
 
@@ -1242,7 +1290,7 @@ def eval_kfl(tf, tfl, d):
 # RTL
 # ----------------------------------------------------------------------------
 def gen_rtl(ctx, rng, out):
-  for _ in range(ctx.n(20, 120)):
+  for k_ in range(ctx.n(20, 120)):
     rank = rng.choice([2, 2, 3])
     n_inc, n_unc = rng.randint(1, 3), rng.randint(0, 3)
     # in 40% of the cases the violation is placed in a lattice group fed ONLY by unconstrained inputs (such a group has
@@ -1256,10 +1304,12 @@ def gen_rtl(ctx, rng, out):
     out.append(dict(layer="rtl", rank=rank, size=rng.choice([2, 2, 3]), n_inc=n_inc, n_unc=n_unc, unc_group=unc_group,
                     num_lattices=num_lattices,
                     bmode=rng.choice(["both", "min"]) if unc_group else rng.choice(["none", "both", "min"]),
-                    kseed=rng.randrange(10 ** 6), eps=rng.choice(EPS),
+                    kseed=rng.randrange(10 ** 6), eps=rng.choice(EPS[1:]) if k_ % 8 == 3 else rng.choice(EPS),
                     gclass=rng.choice(["feasible", "inject", "inject", "inject", "below"]),
                     pick=[rng.random(), rng.random(), rng.random()], mult=rng.choice([10.0, 25.0, 100.0]),
                     seed=rng.randrange(100)))
+    if k_ % 8 == 3:
+      out[-1]["dtype"] = "float32"   # one RTL in eight (eps >= 1e-4)
 
 
 def eval_rtl(tf, tfl, d):
@@ -1267,11 +1317,11 @@ def eval_rtl(tf, tfl, d):
   omin = -3.0 if d["bmode"] in ("both", "min") else None
   omax = 40.0 if d["bmode"] == "both" else None
   layer = tfl.layers.RTL(num_lattices=d["num_lattices"], lattice_rank=d["rank"], lattice_size=d["size"],
-                         output_min=omin, output_max=omax, random_seed=d["seed"], dtype="float64")
+                         output_min=omin, output_max=omax, random_seed=d["seed"], dtype=dtname(d))
   inputs = {}
   if d["n_unc"]:
-    inputs["unconstrained"] = tf.zeros((1, d["n_unc"]), dtype=tf.float64)
-  inputs["increasing"] = tf.zeros((1, d["n_inc"]), dtype=tf.float64)
+    inputs["unconstrained"] = tf.zeros((1, d["n_unc"]), dtype=dtname(d))
+  inputs["increasing"] = tf.zeros((1, d["n_inc"]), dtype=dtname(d))
   layer(inputs)
   subs = list(layer._lattice_layers.values())  # pylint: disable=protected-access
   rng = random.Random(d["kseed"])
@@ -1293,15 +1343,21 @@ def eval_rtl(tf, tfl, d):
       delta = (d["mult"] if d["gclass"] == "inject" else 0.2) * eps
       Ws[li], single = inject_single(Ws[li], u, ineqs, qi, delta)
       inj = dict(layer=li, kind=ineqs[qi][0], loc=ineqs[qi][1], unit=u, delta=delta, single=single)
+  # RTL does not pass its dtype on to the lattice layers it builds (they are float32 whatever dtype the RTL was given;
+  # reported separately): the model and the numpy predicate receive the values the sub-layers REALLY hold
+  Ws = [held(dict(dtype=sub.kernel.dtype.base_dtype.name), W) for sub, W in zip(subs, Ws)]
   for sub, W in zip(subs, Ws):
-    sub.kernel.assign(W)
+    sub.kernel.assign(W.astype(sub.kernel.dtype.base_dtype.name))
   out = outcome_of(tf, lambda: layer.assert_constraints(eps))
   v = max(lat_viol(W, cfg) for W, cfg in zip(Ws, cfgs))
   coq = None
   if not out.startswith("error"):
     coq = "CRtl %s %s %s" % (clist(["(%s, %s)" % (coq_lat_cfg(c), cql(flat(W))) for c, W in zip(cfgs, Ws)]), cq(eps),
                              cbool(out == "returned"))
-  klass = "rtl_%s_%s_layers%d_%s" % (d["gclass"], (inj or {}).get("kind", "-"), len(subs), out[:8])
+  klass = "rtl_%s_%s_layers%d_%s%s" % (d["gclass"], (inj or {}).get("kind", "-"), len(subs), out[:8],
+                                       "_f32" if is_f32(d) else "")
+  if not is_f32(d) and any(sub.kernel.dtype.base_dtype.name != "float64" for sub in subs):
+    klass += "_f64rtl-holds-f32"
   return Case(d, coq=coq, pred_fail=verdict(out, v, eps), nontrivial=bool(v > 0), klass=klass,
               info={"outcome": out, "largest_violation": v, "injected": inj,
                     "sublayers": [dict(units=c["units"], monos=c["monos"]) for c in cfgs]})
